@@ -702,3 +702,57 @@ def g_gcnative(repo):
         return res
     finally:
         shutil.rmtree(d, ignore_errors=True)
+
+
+# =====================================================================================
+# objnative (C07): BOUNDED stand-in for the parts of the layered object representation that CBMC cannot
+# execute - get_fields_order (real BTreeMap), extend_object / object_with_field_removed (layer cloning):
+# exhaustive enumeration of small objects on the real functions (extracted verbatim, compiled natively).
+# Counted as BOUNDED, never as proof.
+# =====================================================================================
+OBJ_PROBE = [
+    {"source": "std.objectFields(std.objectRemoveKey(std.objectRemoveKey({ a: 1 }, 'a') + { a: 2 }, 'a') + { a: 3 })", "oracle": {"oracle": "stdout_equals", "value": '[\n   "a"\n]\n'}},
+    {"source": "std.objectRemoveKey({ a: 1 }, 'a') + { a: 2 }", "oracle": {"oracle": "stdout_equals", "value": '{\n   "a": 2\n}\n'}},
+    {"source": "std.objectFields(({ a:: 1 } + { b: 2 }) + { a: 3 }) == std.objectFields({ a:: 1 } + ({ b: 2 } + { a: 3 }))", "oracle": {"oracle": "stdout_equals", "value": "true\n"}},
+    {"source": "std.objectFieldsAll(std.objectRemoveKey({ a: 1, b:: 2 }, 'a'))", "oracle": {"oracle": "stdout_equals", "value": '[\n   "b"\n]\n'}},
+]
+
+
+@frame.frame("C07")
+def g_objnative(repo):
+    tier = os.environ.get("VERIF_TIER_EFFECTIVE", "quick")
+    maxl = 6 if tier == "thorough" else 5
+    tpl = os.path.join(os.path.dirname(os.path.dirname(os.path.abspath(__file__))), "units", "objnative", "unit.rs")
+    ub = _extract.build_unit(tpl, repo)          # LostAnchor propagates: exit 2
+    d = tempfile.mkdtemp(prefix="objnative", dir=os.environ.get("VERIF_SCRATCH") or "/var/tmp")
+    try:
+        open(os.path.join(d, "objn.rs"), "w").write(ub.text)
+        p = subprocess.run(["rustc", "-O", "--edition", "2024", "objn.rs", "-o", "objn"], cwd=d, stdout=subprocess.PIPE, stderr=subprocess.STDOUT, text=True, timeout=600)
+        if p.returncode != 0:
+            raise LostAnchor("objnative: the extracted object functions do not compile with the harness (%s)" % p.stdout[-300:].replace("\n", " "))
+        try:
+            r = subprocess.run([os.path.join(d, "objn"), str(maxl)], stdout=subprocess.PIPE, stderr=subprocess.STDOUT, text=True, timeout=1800)
+        except subprocess.TimeoutExpired:
+            raise LostAnchor("objnative: enumeration did not finish in 1800 s")
+        m = _re.search(r"OBJNATIVE cases=(\d+) failures=(\d+) maxl=(\d+)", r.stdout)
+        if not m:
+            # a panic inside the extracted code (index out of range, unwrap) on an enumerated object is a failure of
+            # the real code on that object, but without the result line there is no witness: undecided
+            raise LostAnchor("objnative: no result line (exit %s): %s" % (r.returncode, r.stdout[-300:].replace("\n", " ")))
+        cases, fails = int(m.group(1)), int(m.group(2))
+        res = {"name": "objnative", "obligations": cases, "failed": [], "samples": [], "strength": "bounded",
+               "bound": "every REACHABLE object (sequence of blocks: a literal layer over two field names with entries {absent, :, ::, :::}, or a removal marker {x: Removed(d)} over a reachable object of d layers) of 1..%d layers for the field list; every pair of such objects of 1..2 layers, and every triple with a one-layer third operand, for extension; every reachable object of 1..%d layers for objectRemoveKey, followed by one more extension for 1..3 layers" % (maxl, min(maxl - 1, 4)),
+               "fragments": ub.fragments}
+        if fails:
+            fm = _re.search(r"OBJNATIVE first-failure ((C\d\d:objnative:[a-z0-9-]+): .*)", r.stdout)
+            w = fm.group(1) if fm else "?"
+            lab = fm.group(2) if fm else "C07:objnative"
+            res["failed"].append({"obligation": "%s - %d of %d enumerated checks fail; first: %s" % (lab, fails, cases, w),
+                                  "site": "program/data.rs:objects", "file": LANG + "/program/data.rs", "line": 0, "fn": "get_fields_order", "probe": OBJ_PROBE,
+                                  "native_witness": w, "failed_count": fails})
+            res["obligations_failed_count"] = fails
+        else:
+            res["samples"].append("C07:objnative: %d checks over objects of <= %d layers: field list == visibility rule over the effective definitions and agrees with has_field / has_visible_field; extension concatenates layers, is associative, {} is an identity; objectRemoveKey removes exactly the named field" % (cases, maxl))
+        return res
+    finally:
+        shutil.rmtree(d, ignore_errors=True)
